@@ -812,6 +812,8 @@ class ParametricSpectrum(Spectrum):
         if ar is not None:
             if ar < 0:
                 raise errors.SpectrumARError
+            if ar == self.__ar_order:
+                return
             self.__ar_order = ar
             self.modified = True
     def _get_ar_order(self):
@@ -822,9 +824,9 @@ class ParametricSpectrum(Spectrum):
         if ma is not None:
             if ma < 0:
                 raise errors.SpectrumMAError
-            self.__ma_order = ma
-        else:
-            self.__ma_order = None
+        if ma == self.__ma_order:
+            return
+        self.__ma_order = ma
         self.modified = True
     def _get_ma_order(self):
         return self.__ma_order
